@@ -57,8 +57,8 @@ fn files(tier: Tier) -> Vec<(String, Vec<u8>)> {
     let total: usize = seeds.iter().map(|(s, _)| s.target_wc * 12 + 40).sum();
     let stride = (total / target).max(1);
     let mut k = 0usize;
-    for (s, _) in &seeds {
-        for m in mutate::mutants(s, Level::Full) {
+    for (s, lvl) in &seeds {
+        for m in mutate::mutants(s, if *lvl == Level::Scale { Level::Scale } else { Level::Full }) {
             k += 1;
             if k % stride == 0 || m.what.starts_with("k0") {
                 out.push((format!("{}|{}", s.id, m.what), m.bytes));
@@ -92,6 +92,15 @@ fn files(tier: Tier) -> Vec<(String, Vec<u8>)> {
     let halpha = mutate::hostile_alphabet();
     for &a in &halpha {
         mutate::hostile_each(&[a], 2, true, &mut |m| out.push((m.what.clone(), m.bytes.clone())));
+    }
+    // short files: every length 0..=24 with the magic number, its byte-swapped form and foreign first words
+    for first in [0x0723_0203u32, 0x0302_2307, 0, 0xFFFF_FFFF, 0x5249_5053, 0x0723_0204] {
+        for len in 0..=24usize {
+            let mut b: Vec<u8> = first.to_le_bytes().to_vec();
+            b.extend((4..24u8).map(|i| if i % 4 == 1 { 1 } else { 0 }));
+            b.truncate(len);
+            out.push((format!("short:{:#010x}:{}", first, len), b));
+        }
     }
     // output sizes: a last line (and a whole text) on both sides of every buffer size a writer could have
     for n in [1usize, 500, 1000, 1020, 1023, 1024, 1025, 2048, 4095, 4096, 4097, 8191, 8192, 8193, 65535, 65536, 70000, 262_000] {
